@@ -198,11 +198,12 @@ def create_junction(net, pn_bar, tfluid_k, height_m=0, name=None, index=None, in
     cols = ["name", "pn_bar", "tfluid_k", "height_m", "in_service", "type"]
     vals = [name, pn_bar, tfluid_k, height_m, bool(in_service), type]
 
+    if geodata is not None and len(geodata) != 2:
+        raise UserWarning("geodata must be given as (x, y) tuple")
+
     _set_entries(net, "junction", index, **dict(zip(cols, vals)), **kwargs)
 
     if geodata is not None:
-        if len(geodata) != 2:
-            raise UserWarning("geodata must be given as (x, y) tuple")
         net["junction_geodata"].loc[index, ["x", "y"]] = geodata
 
     return index
